@@ -35,6 +35,8 @@ pub trait JobT: Send + Sync {
     fn run(&self, threads: usize, site_kinds: &std::collections::HashSet<String>) -> JobOutcome;
     /// re-execute one abstract history with this job's oracles; returns (text report, failures)
     fn replay(&self, abs: &[Abs]) -> (String, Vec<Failure>);
+    /// stand-alone Rust test for a failure of `abs` at knowledge set `mask`
+    fn rust_test(&self, abs: &[Abs], mask: Mask, kind: &str, detail: &str) -> Option<String>;
 }
 
 pub struct Job<Y: Sys> {
@@ -275,7 +277,8 @@ impl<Y: Sys> JobT for Job<Y> {
         // samples: a few explored histories written out (first leaf of depth n via scripted walk)
         let mut samples = vec![];
         let mut sched = 0;
-        {
+        // (guarded: a mutated subject may panic here too; then there simply is no sample)
+        let _ = std::panic::catch_unwind(std::panic::AssertUnwindSafe(|| {
             let mut st = Stats::default();
             let mut h = Hist::<Y>::new();
             // deterministic walk: at each depth take the (d*7+3)-th candidate
@@ -320,7 +323,7 @@ impl<Y: Sys> JobT for Job<Y> {
                     "one_derivation": h.derivation(full, 0),
                 }));
             }
-        }
+                }));
         JobOutcome {
             label: self.cfg.label.clone(),
             system: Y::NAME,
@@ -358,5 +361,14 @@ impl<Y: Sys> JobT for Job<Y> {
             txt.push_str(&format!("FAIL kind={} at knowledge {:b}\n", f.kind, f.mask));
         }
         (txt, sink.failures)
+    }
+    fn rust_test(&self, abs: &[Abs], mask: Mask, kind: &str, detail: &str) -> Option<String> {
+        let mut st = Stats::default();
+        let h = rebuild::<Y>(abs, &self.cfg, None, &mut st)?;
+        if h.len() != abs.len() || (mask as usize) >= h.table.len() {
+            return None;
+        }
+        let cfg = self.cfg.clone();
+        h.rust_test(mask, kind, detail, &move |a| cfg.actor_of(a))
     }
 }
